@@ -246,17 +246,29 @@ def _oracle(ctx, ex, obs, prelude=False):
                 out1 != 'returned' else 'outcome-changed'
             sig = None
             if out1 in ('leak', 'error') and isinstance(val1, Exception):
-                sig = exc_signature(val1)
+                # root cause: an exception raised while another one was
+                # propagating (CloseEnumeration in the finally clause of an
+                # Iter...() generator) hides the first one; bucket by the
+                # first one
+                root = val1
+                while root.__context__ is not None and \
+                        not isinstance(root.__context__, pywbem.Error) and \
+                        exc_signature(root.__context__):
+                    root = root.__context__
+                sig = exc_signature(root)
                 if sig and '_recorder:toyaml' in sig:
                     # name the value type toyaml() could not handle
                     import re
-                    m = re.search(r'toyaml\(\): (\w+)', str(val1))
+                    m = re.search(r'toyaml\(\): (\w+)', str(root))
                     sig += ':' + (m.group(1) if m else '?')
             ctx.fail('%s:%s' % (what, sig or ex['call']['op']),
                      'bare: %r\nobserved: %r\nobservers: %r' %
                      (base, seen, obs))
         # raw request/reply
-        if ad1.requests and out1 != 'local':
+        # (only when the request of the operation itself went out: one that
+        # requests refuses to send, e.g. for a line break in the CIMObject
+        # header value, exchanged no bytes)
+        if len(ad1.requests) > (1 if prelude else 0) and out1 != 'local':
             lr = conn1.last_raw_request
             if lr is not None:
                 lrb = lr.encode('utf-8') if isinstance(lr, str) else lr
